@@ -85,7 +85,7 @@ fn cmd_worker(args: &[String]) -> i32 {
     let mut reports: Vec<WorkerReport> = vec![];
     let only = arg_after(args, "--only-sub");
     for sub in &meta.subs {
-        if only.as_ref().is_some_and(|o| o != sub.id) {
+        if only.as_ref().is_some_and(|o| !o.split(',').any(|x| x == sub.id)) {
             continue;
         }
         if only.is_none() && sub.id.ends_with("-fast") != std::env::var("SVCHECK_FAST_BUILD").is_ok() {
